@@ -190,6 +190,8 @@ thread_local! {
     static QUIET: std::cell::Cell<bool> = const { std::cell::Cell::new(false) };
 }
 
+static LAST_PANIC_ANY_THREAD: Mutex<Option<String>> = Mutex::new(None);
+
 pub fn install_panic_hook() {
     let default = std::panic::take_hook();
     std::panic::set_hook(Box::new(move |info| {
@@ -205,6 +207,9 @@ pub fn install_panic_hook() {
             .map(|l| format!("{}:{}", l.file(), l.line()))
             .unwrap_or_default();
         LAST_PANIC.with(|p| *p.borrow_mut() = Some(format!("{} @ {}", msg, loc)));
+        if let Ok(mut g) = LAST_PANIC_ANY_THREAD.lock() {
+            *g = Some(format!("{} @ {}", msg, loc));
+        }
         if !QUIET.with(|q| q.get()) {
             default(info);
         }
@@ -220,6 +225,7 @@ pub fn guarded<T>(f: impl FnOnce() -> T) -> Result<T, String> {
         Ok(v) => Ok(v),
         Err(_) => Err(LAST_PANIC
             .with(|p| p.borrow_mut().take())
+            .or_else(|| LAST_PANIC_ANY_THREAD.lock().ok().and_then(|g| g.clone()))
             .unwrap_or_else(|| "<panic>".into())),
     }
 }
